@@ -1,0 +1,59 @@
+// SPDX-FileCopyrightText: 2026 The Pion community <https://pion.ly>
+// SPDX-License-Identifier: MIT
+
+//go:build verif
+
+// Package verifhooks re-exports internal packages for the external verification harness.
+// It only exists when the build tag `verif` is set.
+package verifhooks
+
+import (
+	"time"
+
+	"github.com/pion/interceptor/internal/cc"
+	"github.com/pion/interceptor/internal/ntp"
+	"github.com/pion/interceptor/internal/rtpbuffer"
+	"github.com/pion/interceptor/internal/sequencenumber"
+)
+
+// Unwrapper re-exports sequencenumber.Unwrapper.
+type Unwrapper = sequencenumber.Unwrapper
+
+// ToNTP re-exports ntp.ToNTP.
+func ToNTP(t time.Time) uint64 { return ntp.ToNTP(t) }
+
+// ToNTP32 re-exports ntp.ToNTP32.
+func ToNTP32(t time.Time) uint32 { return ntp.ToNTP32(t) }
+
+// ToTime re-exports ntp.ToTime.
+func ToTime(t uint64) time.Time { return ntp.ToTime(t) }
+
+// ToTime32 re-exports ntp.ToTime32.
+func ToTime32(t uint32, reference time.Time) time.Time { return ntp.ToTime32(t, reference) }
+
+// RTPBuffer re-exports rtpbuffer.RTPBuffer.
+type RTPBuffer = rtpbuffer.RTPBuffer
+
+// RetainablePacket re-exports rtpbuffer.RetainablePacket.
+type RetainablePacket = rtpbuffer.RetainablePacket
+
+// PacketFactoryCopy re-exports rtpbuffer.PacketFactoryCopy.
+type PacketFactoryCopy = rtpbuffer.PacketFactoryCopy
+
+// PacketFactoryNoOp re-exports rtpbuffer.PacketFactoryNoOp.
+type PacketFactoryNoOp = rtpbuffer.PacketFactoryNoOp
+
+// NewRTPBuffer re-exports rtpbuffer.NewRTPBuffer.
+func NewRTPBuffer(size uint16) (*RTPBuffer, error) { return rtpbuffer.NewRTPBuffer(size) }
+
+// NewPacketFactoryCopy re-exports rtpbuffer.NewPacketFactoryCopy.
+func NewPacketFactoryCopy() *PacketFactoryCopy { return rtpbuffer.NewPacketFactoryCopy() }
+
+// FeedbackAdapter re-exports cc.FeedbackAdapter.
+type FeedbackAdapter = cc.FeedbackAdapter
+
+// Acknowledgment re-exports cc.Acknowledgment.
+type Acknowledgment = cc.Acknowledgment
+
+// NewFeedbackAdapter re-exports cc.NewFeedbackAdapter.
+func NewFeedbackAdapter() *FeedbackAdapter { return cc.NewFeedbackAdapter() }
